@@ -79,6 +79,8 @@ func (g *irGenCtx) genModels() {
 				f.Type = rng.Pick(r, irPrims)
 			case c < 6 && len(g.enums) > 0:
 				f.Type = rng.Pick(r, g.enums).Name
+			case c < 7 && badValidators && ns > 1:
+				f.Type = fmt.Sprintf("Model%d", r.Intn(ns)) // any struct, possibly declared later (unresolved $ref while emitting)
 			case c < 7 && i > 0:
 				f.Type = g.structs[r.Intn(i)].Name // earlier struct
 			case c < 8:
@@ -129,10 +131,23 @@ func (g *irGenCtx) genValidator(ty string) string {
 	n := 1 + r.Intn(3)
 	rules := []string{}
 	for i := 0; i < n; i++ {
+		if badValidators && r.Chance(1, 3) {
+			// arbitrary / malformed validator tags (C14): unparsable numbers, empty values, unknown rules, stray separators
+			rules = append(rules, rng.Pick(r, []string{"min=abc", "min=-1", "min=", "max=abc", "len=x", "len=-3", "len=", "minItems=x", "minItems=-1",
+				"maxItems=q", "uniqueItems=maybe", "uniqueItems=", "gt=", "gt=abc", "gte=1e400", "lt=abc", "lt=", "lte=--1", "oneof=", "oneof=   ",
+				"enum=", "enum=|", "pattern=", "foo=bar", "=", "==", "required=", "dive", "omitempty", "é=ü", "min=9999999999999999999999"}))
+			continue
+		}
 		rules = append(rules, rng.Pick(r, pool))
 	}
-	return strings.Join(rules, ",")
+	sep := ","
+	if badValidators && r.Chance(1, 10) {
+		sep = rng.Pick(r, []string{",,", ", ", ",=,"})
+	}
+	return strings.Join(rules, sep)
 }
+
+var badValidators = os.Getenv("VH_BAD_VALIDATORS") != ""
 
 func isPrim(s string) bool {
 	for _, p := range irPrims {
